@@ -1,6 +1,7 @@
 import Model.Base.Proto
 import Model.Proc.FilterEval
 import Model.Spec.FilterSem
+import Model.Proc.FilterText
 
 namespace Driver.C06
 open Proto Proc.FilterEval
@@ -106,6 +107,12 @@ partial def queries (res : Res) : Filter → List (Nat × Bytes)
     else if key == Proc.Extract.dotConfig || key.isEmpty then []
     else [(id, keyValue key res)]
 
+def hexNat (s : String) : Option Nat :=
+  s.toList.foldlM (fun acc c => (Bytes.hexVal c).map (acc * 16 + ·)) 0
+
+def runeList (s : String) : List Nat :=
+  if s == "-" || s == "" then [] else (s.splitOn ",").filterMap hexNat
+
 def bits (n : Nat) (f : Nat → Bool) : String :=
   if n == 0 then "-" else String.ofList ((List.range n).map fun i => if f i then '1' else '0')
 
@@ -125,14 +132,30 @@ def handle (l : Line) : IO Unit := do
   let res : Res := { name := name, config := cfg, values := vals }
   let table := parseOracle (l.getD "re" "-")
   let re : ReOracle := fun i v => table.any fun t => t.1 == i && t.2.1 == v && t.2.2
+  -- text path: parser model (C07) ∘ toTree ∘ walk, from the expression text alone
+  let text := (l.bytes? "expr").getD []
+  let reok := (l.hexList? "reok").getD []
+  let sp := runeList (l.getD "sp" "-")
+  let cx : Proc.Tok.Ctx :=
+    { n := text.length, compileOK := fun x => reok.contains x, isSpaceHi := fun r => sp.contains r }
+  let rsrc := ((l.hexList? "rsrc").getD []).zipIdx
+  let reT : ReOracle := fun i v =>
+    rsrc.any fun sj => Proc.FilterText.reId sj.1 == i && table.any fun t => t.1 == sj.2 && t.2.1 == v && t.2.2
+  let textFn := Proc.FilterText.newFilterText cx reT text
+  let tnew := match textFn with
+    | .ok _ => "ok"
+    | .error (.syntax e) => s!"!syntax@{e.off}"
+    | .error .badTree => "!badtree"
+    | .error (.compile (.config off)) => s!"!config@{off}"
+    | .error (.compile (.emptyKey off)) => s!"!emptykey@{off}"
   let treeS := l.getD "tree" "!"
   if treeS == "!" then
-    IO.println s!"obs {id} new=!syntax"
+    IO.println s!"obs {id} new=!syntax tnew={tnew}"
     return
   let some (e, []) := parseTree (treeS.splitOn ".") | IO.println s!"obs {id} new=!badtree"
   match walk re e with
-  | .error (.config off) => IO.println s!"obs {id} new=!config@{off}"
-  | .error (.emptyKey off) => IO.println s!"obs {id} new=!emptykey@{off}"
+  | .error (.config off) => IO.println s!"obs {id} new=!config@{off} tnew={tnew}"
+  | .error (.emptyKey off) => IO.println s!"obs {id} new=!emptykey@{off} tnew={tnew}"
   | .ok user =>
     let projs := parseProjs (l.getD "projs" "-")
     -- projections: errors first (the harness stops at the first failing Parse)
@@ -143,7 +166,7 @@ def handle (l : Line) : IO Unit := do
       if let some pe := perr then
         let s := match pe with
           | .unknownOrder => "unknownorder" | .fixedConfig => "fixedconfig" | .unitKey => "unit" | .emptyKey => "emptykey"
-        IO.println s!"obs {id} new=ok perr={s}"
+        IO.println s!"obs {id} new=ok tnew={tnew} perr={s}"
         return
     let excl := fullnameKeysOf projs
     let f : FilterFn := parseAll excl projs user
@@ -155,7 +178,14 @@ def handle (l : Line) : IO Unit := do
     let need := queries res e
     let omiss := (need.filter fun q => !(table.any fun t => t.1 == q.1 && t.2.1 == q.2)).length
     let oob := String.ofList ([(-1 : Int), n, n + 1, n + 31, n + 32].map fun i => if mt.testInt i then '1' else '0')
-    IO.println s!"obs {id} new=ok perr=none pv={showHexList pv} n={n} test={bits n mt.test} oob={oob} all={b01 mt.all} any={b01 mt.any} apply={showIdx ap.1} flag={b01 ap.2} fapply={showIdx ap2.1.values} fflag={b01 ap2.2} omiss={omiss} glue=ok"
+    let tfields := match textFn with
+      | .ok userT =>
+        let fT : FilterFn := parseAll excl projs userT
+        let mT := filterMatch fT res
+        let aT := filterApply fT res
+        s!"ttest={bits n mT.test} tall={b01 mT.all} tany={b01 mT.any} tapply={showIdx aT.1.values} tflag={b01 aT.2}"
+      | .error _ => "ttest=! tall=! tany=! tapply=! tflag=!"
+    IO.println s!"obs {id} new=ok tnew={tnew} perr=none pv={showHexList pv} n={n} test={bits n mt.test} oob={oob} all={b01 mt.all} any={b01 mt.any} apply={showIdx ap.1} flag={b01 ap.2} fapply={showIdx ap2.1.values} fflag={b01 ap2.2} omiss={omiss} glue=ok {tfields}"
     -- S layer: the specification
     let den : Nat → Bool := fun i =>
       Spec.FilterSem.denote re res i e && projs.flatten.all fun fld => Spec.FilterSem.inFixed excl fld res
